@@ -111,14 +111,35 @@ def rand_value(rng, big=False):
     if big:
         n = rng.choice([255, 256, 4000, 65534, 65535, 65536])
     else:
-        n = rng.choice([0, 0, 1, 1, 2, 3, 5, 17, 255, 256])
+        n = rng.choice([0, 0, 1, 1, 2, 3, 4, 5, 17, 128, 129, 255, 256])
     return rand_bytes(rng, n)
+
+
+_CODE_NAME = None
+
+
+def natural_payload(rng):
+    """A TLV in the shape the protocol document gives its type (see v2gen.natural_tlv), written
+    through one of the four TLV-producing payload kinds."""
+    global _CODE_NAME
+    from .v2gen import natural_tlv
+    if _CODE_NAME is None:
+        _CODE_NAME = {v: k for k, v in TYPE_CODES.items()}
+    kind, val = natural_tlv(rng)
+    c = rng.randrange(3)
+    if c == 0 and kind in _CODE_NAME:
+        return ("prt", _CODE_NAME[kind], val)
+    if c == 1:
+        return ("pr", kind, val)
+    return ("tv", kind, val)
 
 
 def rand_payload(rng, big=False):
     c = rng.random()
-    if c < 0.25:
+    if c < 0.20:
         return rand_int_payload(rng)
+    if c < 0.27 and not big:
+        return natural_payload(rng)
     if c < 0.40:
         return ("sl", rand_value(rng, big))
     if c < 0.50:
@@ -285,6 +306,45 @@ def boundary_programs(rng):
     return progs
 
 
+def length_toggle_programs(rng):
+    """Payload totals around and beyond 65535 written while an explicit length is (or is not) in
+    force, with the override set / cleared / changed at every position afterwards: the final
+    verdict must depend on the override in force at build time only (C09), whatever was in force
+    while the bytes were written."""
+    progs = []
+    ctors = (("new", 0x21, 0x00), ("with", 0x21, 1, rand_addr(rng, "ipv4")), ("with", 0x21, 1, rand_addr(rng, "unspec")))
+    for total in (65535, 65536, 65537, 80000, 131072 + 5):
+        for ctor in ctors:
+            ablock = 0 if ctor[0] == "new" else len(addr_bytes(ctor[3]))
+            writes = []
+            left = total - ablock
+            k = 0
+            while left > 0:
+                n = min(left, rng.choice([40000, 65535, 30000]))
+                kind = k % 3
+                if kind == 0 or n < 3:
+                    writes.append(("wp", ("sl", bytes([0x41 + k]) * n)))
+                elif kind == 1:
+                    writes.append(("tlv", 0x20 + k, bytes([0x41 + k]) * (n - 3)))
+                else:
+                    writes.append(("wps", [("sl", bytes([0x41 + k]) * (n // 2)), ("sec", bytes([0x61 + k]) * (n - n // 2))]))
+                left -= n
+                k += 1
+            for first in (("len", 12), ("len", 0), ("len", 65535)):
+                for pos in range(1, len(writes) + 1):
+                    for last in (("len", None), ("len", 9), None):
+                        ops = [first] + writes[:pos] + ([last] if last else []) + writes[pos:]
+                        progs.append((ctor, ops))
+                        if last and pos < len(writes):
+                            progs.append((ctor, ops + [("len", None)]))
+                            progs.append((ctor, ops + [("len", 3)]))
+            # override first supplied after the overshoot
+            progs.append((ctor, writes + [("len", 77)]))
+            progs.append((ctor, writes + [("len", 77), ("len", None)]))
+            progs.append((ctor, [("len", None)] + writes))
+    return progs
+
+
 def set_length_everywhere(rng, n):
     """A program with ≥ 1 write and a set_length inserted at every position (C09)."""
     progs = []
@@ -367,7 +427,16 @@ def wire_programs(rng, n):
             else:
                 ln = min(rng.choice([0, 1, 2, 5, 255, 256, 300]), room - 3)
             kind = rng.choice(list(TYPE_CODES)) if rng.random() < 0.5 else rng.getrandbits(8)
-            tl.append((kind, rand_bytes(rng, ln)))
+            val = rand_bytes(rng, ln)
+            if not (exact and j == count - 1) and rng.random() < 0.35:
+                # the type's own shape (CRC32C with 4 bytes, unique id around 128 bytes, SSL sub-TLVs ...)
+                from .v2gen import natural_tlv
+                k2, v2 = natural_tlv(rng)
+                if len(v2) <= room - 3:
+                    names = {v: k for k, v in TYPE_CODES.items()}
+                    kind, val = (names[k2] if (k2 in names and rng.random() < 0.5) else k2), v2
+                    ln = len(val)
+            tl.append((kind, val))
             room -= 3 + ln
         ops = []
         for kind, v in tl:
